@@ -472,6 +472,7 @@ func (c *ctx) scenC06Near() {
 
 // ---------------- C14 ----------------
 func scenC14(c *ctx) {
+	c.scenC14Siblings()
 	// suite usability: subsets x formats x password hashes x digits x hashes x time steps
 	n := 0
 	for mask := 0; mask < 32; mask++ {
@@ -569,6 +570,54 @@ func isBoundary(n int) bool {
 		}
 	}
 	return false
+}
+
+// sibling configurations through the real entry points: identical except for ONE requirement-bearing field
+// (challenge format, password hash, a selection flag), used back to back in both orders at the boundary lengths
+func (c *ctx) scenC14Siblings() {
+	id := 0
+	for i := 0; i < c.n(30, 400); i++ {
+		a := c.handBuilt(c.rng.Intn(32)|2, c.rng.Intn(3), 4+c.rng.Intn(7), []byte("OCRA-1:SIB"))
+		b := a
+		var lens []int
+		field := 1
+		switch i % 3 {
+		case 0: // minimum challenge length 8 versus 10
+			a.Chal, b.Chal = []int{1, 3, 5}[c.rng.Intn(3)], []int{2, 4, 6}[c.rng.Intn(3)]
+			lens = []int{7, 8, 9, 10, 11}
+		case 1: // password hash length
+			a.P, b.P = true, true
+			a.PH, b.PH = 1, 2+c.rng.Intn(2)
+			lens = []int{19, 20, 21, 31, 32, 33, 63, 64, 65}
+			field = 2
+		default: // session selected or not
+			a.S, b.S = true, false
+			lens = []int{127, 128, 129, 140}
+			field = 3
+		}
+		if i%2 == 1 {
+			a, b = b, a
+		}
+		key := c.randBytes(20)
+		for _, ln := range lens {
+			for _, cf := range []Cfg{a, b, a} {
+				id++
+				in := c.admissibleInput(cf, id)
+				switch field {
+				case 1:
+					in.Challenge = c.randBytes(ln)
+				case 2:
+					in.Password = c.randBytes(ln)
+				default:
+					in.SessionInfo = c.randBytes(ln)
+				}
+				sa := cfgSuiteArg(cf)
+				c.rec.Emit(doGenerateOCRA(fmt.Sprintf("C14/sib/%d/gen", id), b32(key), sa, in))
+				c.rec.Emit(doValidateOCRA(fmt.Sprintf("C14/sib/%d/val", id), b32(key), strings.Repeat("0", cf.Digits), sa, in))
+				c.rec.Emit(doInputValidate(fmt.Sprintf("C14/sib/%d/inp", id), cf, in))
+			}
+		}
+	}
 }
 
 // ---------------- C15 ----------------
